@@ -77,3 +77,4 @@ Arguments mkJump {K} _ _ _ _.
 Arguments net_of {K} _ _. Arguments check_case {K} _ _ _ _ _ _ _. Arguments diagnose {K} _ _ _ _ _ _ _.
 Arguments correctorsb {K} _ _ _ _. Arguments Lcomp {K} _ _ _ _. Arguments Ltensor {K} _ _ _.
 Arguments revclosedb {K} _. Arguments in_bounds {K} _ _ _ _ _. Arguments dims _ : clear implicits.
+Arguments list_eqb _ _ _ : clear implicits.
